@@ -4583,7 +4583,8 @@ class DecAffine(Affine):
 
                 values.append(output)
 
-            if ns > 1 and len(self.event_adapt) > 1:
+            sw = any(arg.sw for arg in args)
+            if ns > 1 and (len(self.event_adapt) > 1 or sw):
                 return pd.Series(values, index=self.dro_model.series_scen.index)
             else:
                 return values[0]
